@@ -47,6 +47,9 @@ func WorkerMain(mode string) int {
 	if mode == "race" {
 		return raceWorker(repo)
 	}
+	if mode == "conc" {
+		return concWorker(repo)
+	}
 	if mode == "hyph" {
 		return hyphWorker(repo)
 	}
